@@ -385,3 +385,13 @@ h_order3!(c09_q_order3_f8x2, 4, f8x2(anylen(16)), f8x2(anylen(16)), f8x2(anylen(
 h_order3!(c09_q_order3_bvd, 5, bvd3(anylen(192)), bvd2(anylen(128)), bvd1(anylen(64)));
 h_order3!(c09_q_order3_bv, 5, bvdyn3(anylen(192)), bvdyn2(anylen(128)), bvdyn1(anylen(64)));
 h_order3!(c09_t_order3_mixed, 10, f64x2(anylen(128)), bvd1(anylen(8)), bvfix(anylen(128)));
+
+// ---- Bvd / heap Bv against 128-bit-word Bvf (the u64 view of a u128 word spans two words) ----
+h_op!(c09_q_eq_bvd1s_f128x1, 12, bvd1(anylen(10)), f128x1(anylen(128)), wit_sym, 8, ==, m_eq);
+h_op!(c09_q_eq_f128x1_bvd1s, 12, f128x1(anylen(128)), bvd1(anylen(10)), wit_sym, 8, ==, m_eq);
+h_pc!(c09_q_pc_bvd1s_f128x1, 12, bvd1(anylen(10)), f128x1(anylen(128)), wit_sym, 8);
+h_op!(c09_q_eq_bvd2s_f128x2, 12, bvd2(anylen(10)), f128x2(anylen(256)), wit_sym, 8, ==, m_eq);
+h_op!(c09_t_eq_bvdyn1s_f128x2, 12, bvdyn1(anylen(10)), f128x2(anylen(256)), wit_sym, 8, ==, m_eq);
+h_pc!(c09_t_pc_f128x2_bvd2s, 12, f128x2(anylen(256)), bvd2(anylen(10)), wit_sym, 8);
+h_op!(c09_t_eq_bvd2s_f32x2, 12, bvd2(anylen(10)), f32x2(anylen(64)), wit_sym, 8, ==, m_eq);
+h_op!(c09_t_eq_bvd2s_fuszx2, 12, bvd2(anylen(10)), fuszx2(anylen(128)), wit_sym, 8, ==, m_eq);
